@@ -36,6 +36,8 @@ func init() {
 		Calls:        8,
 		PoolProb:     0.5,
 		UnknownNames: true,
+		BadNM:        true,
+		BadSplit:     true,
 		StopSetters:  1,
 		DupDAG:       true,
 	}
@@ -51,6 +53,7 @@ func init() {
 		Holds:        true,
 		UnknownNames: true,
 		BadNM:        true,
+		DupNames:     true,
 	}
 	fw.Families["C12"] = func(k *fw.Case) { trace.RunCase(k, c12) }
 
